@@ -608,7 +608,21 @@ def server_derive_cases(ck, tier):
         out.append(base(method=4, encalg=a, mode=None, padding=8, ddata=ck.rb(16)))
     if tier == "quick":
         out = [c for c in out if c["method"] == 4 or r.random() < 0.6]
-    return out
+    # a fixed core that every seed runs (one accepted request per method, and the corners of each method)
+    core = [base(otype=7, method=2, hash=6), base(otype=2, bits=256, method=2, hash=6), base(otype=7, bits=264, method=2, hash=6),
+            base(otype=2, method=3, hash=4, ddata=ck.rb(5), salt=ck.rb(8)),
+            base(otype=7, bits=5100 * 8, method=3, hash=4, ddata=ck.rb(5), salt=ck.rb(8)),
+            base(otype=7, bits=5101 * 8, method=3, hash=4, ddata=ck.rb(5), salt=ck.rb(8)),
+            base(otype=7, bits=4081 * 8, method=3, hash=3, ddata=ck.rb(5), salt=ck.rb(8)),
+            base(otype=2, method=1, hash=6, salt=ck.rb(8), iters=2), base(otype=7, method=1, hash=6, salt=ck.rb(8), iters=0),
+            base(otype=7, method=1, hash=6, salt=ck.rb(8), iters=-1), base(otype=7, method=1, hash=6, salt=ck.rb(8), iters=None),
+            base(otype=2, method=5, hash=6, ddata=ck.rb(5)), base(otype=7, method=5, hash=6),
+            base(otype=2, method=4, encalg=3, mode=1, padding=3, iv=ck.rb(16), ddata=ck.rb(16)),
+            base(otype=7, method=4, encalg=3, mode=1, padding=3, iv=ck.rb(16)),
+            base(otype=7, method=4, encalg=3, mode=2, padding=3),
+            base(otype=7, method=4, encalg=3, mode=6, iv=ck.rb(16)),
+            base(otype=7, bits=64, method=4, encalg=3, mode=6, iv=ck.rb(16), ddata=ck.rb(16))]
+    return core + out
 
 
 def run_derive_server(ck, tier):
@@ -751,7 +765,11 @@ def sig_cases(ck, tier):
     out = list(itertools.product(dsas, algs, hashes_, pads))
     if tier == "quick":
         out = [c for c in out if ck.rng.random() < 0.3 or (c[3] in (10, 8) and ck.rng.random() < 0.5)]
-    return out
+    # a fixed core that every seed runs: by digital signature algorithm alone, by the pair, both and agreeing, both and
+    # contradicting (hash, algorithm), an unknown digital signature algorithm, missing / foreign padding
+    core = [(5, None, None, 10), (3, None, None, 8), (None, 4, 6, 10), (None, 4, 4, 8), (5, 4, 6, 10), (5, 4, 4, 10),
+            (5, 5, None, 8), (9, 4, 4, 10), (None, 4, None, 8), (None, 4, 6, None), (None, 4, 6, 2), (None, 5, 6, 10)]
+    return core + [c for c in out if c not in core]
 
 
 def run_sign_verify(ck, tier):
@@ -805,6 +823,8 @@ def run_sign_verify(ck, tier):
 
 
 def compare_sig(mo, oc, calls, prim, msg, bits):
+    if "err" not in mo and oc != "ok" and cls_of(oc) == mo["onFailure"] and [x for x in calls if x["prim"] == prim]:
+        oc = "ok"          # the plan was carried out (checked below) and the RSA primitive itself refused
     why = Checker.same_outcome(oc, mo)
     if why or "err" in mo:
         return why
@@ -856,13 +876,13 @@ def run_asym(ck, tier):
             def compare(mo, od=od):
                 if "err" in mo:
                     return Checker.same_outcome(od, mo)
-                return None if (od == "ok" or od.startswith("internal:")) else "implementation: %s, model accepts" % od
+                return None if (od == "ok" or cls_of(od) == mo["onFailure"]) else "implementation: %s, model accepts" % od
             ck.add("adec", dict(line, cmd="adec"), {"outcome": od}, compare)
 
 
 def compare_asym(mo, oc, calls, prim, data):
-    if "err" not in mo and oc.startswith("internal:"):
-        oc = "ok"          # the plan was carried out (checked below) and the RSA primitive itself refused: unmapped
+    if "err" not in mo and cls_of(oc) == mo["onFailure"]:
+        oc = "ok"          # the plan was carried out (checked below) and the RSA primitive itself refused
     why = Checker.same_outcome(oc, mo)
     if why or "err" in mo:
         return why
@@ -901,8 +921,13 @@ def run_wrap(ck, tier):
     # a key the primitive refuses (not a whole number of 8-byte blocks): mapped to Cryptographic Failure
     with recording() as (calls, eng):
         oc, _ = outcome(lambda: eng.wrap_key(ck.rb(13), E.WrappingMethod.ENCRYPT, E.BlockCipherMode.NIST_KEY_WRAP, ck.rb(16)))
-    if oc != "CryptographicFailure":
-        ck.report("c06:wrap-primitive-refusal:%s" % oc, "wrap_key of 13 bytes: %s" % oc, {"op": "wrap-13"})
+
+    def compare13(mo, oc=oc):
+        return None if ("err" not in mo and cls_of(oc) == mo["onFailure"]) else \
+            "wrap_key of 13 bytes: implementation %s, model %r" % (oc, mo)
+    ck.add("wrap", {"cmd": "wrap", "method": 1, "mode": 13}, {"outcome": oc}, compare13)
+    if oc.startswith("internal:"):
+        ck.report("c06:wrap-unexpected-exception:%s" % oc[9:], "wrap_key of 13 bytes raised %s" % oc, {"op": "wrap-13"})
 
 
 def run_wrap_server(ck, tier):
@@ -1012,8 +1037,8 @@ def run_pair(ck, tier):
                 if gen != [{"prim": "rsa_generate", "exponent": mo["exponent"], "bits": mo["keySize"]}]:
                     return "recorded %r; plan %r" % (gen, mo)
                 if oc != "ok":
-                    # the generator itself refuses the size: mapped to Cryptographic Failure
-                    return None if oc == "CryptographicFailure" else "implementation: %s" % oc
+                    # the generator itself refuses the size
+                    return None if cls_of(oc) == mo["onFailure"] else "implementation: %s" % oc
                 pub, priv = res
                 if pub["format"].value != mo["pubFormat"] or priv["format"].value != mo["privFormat"] \
                         or pub["public_exponent"] != mo["exponent"]:
@@ -1126,6 +1151,39 @@ def replay_case(rep):
             return not oc.startswith("internal:")
         od, back = outcome(lambda: eng._decrypt_asymmetric(A, priv, res["cipher_text"], Pd, hashing_algorithm=Hh))
         return od == "ok" and back == msg
+    if op in ("mac", "create", "pair", "wrap", "wrap-13"):
+        # the monitors of these operations: no exception other than a KmipError; a created key has the requested length
+        from kmip.services.server.crypto import engine as ce
+        eng = ce.CryptographyEngine()
+        if op == "mac":
+            oc, _ = outcome(lambda: eng.mac(en(E.CryptographicAlgorithm, rep["alg"]), bytes.fromhex(rep["key"]),
+                                            bytes.fromhex(rep["data"])))
+        elif op == "create":
+            oc, res = outcome(lambda: eng.create_symmetric_key(en(E.CryptographicAlgorithm, rep["alg"]), rep["length"]))
+            if oc == "ok" and len(res["value"]) * 8 != rep["length"]:
+                return False
+        elif op == "pair":
+            oc, _ = outcome(lambda: eng.create_asymmetric_key_pair(en(E.CryptographicAlgorithm, rep["alg"]), rep["length"]))
+        elif op == "wrap":
+            oc, _ = outcome(lambda: eng.wrap_key(b"\x00" * 16, en(E.WrappingMethod, rep["method"]),
+                                                 en(E.BlockCipherMode, rep["mode"]), b"\x01" * 16))
+        else:
+            oc, _ = outcome(lambda: eng.wrap_key(b"\x00" * 13, E.WrappingMethod.ENCRYPT, E.BlockCipherMode.NIST_KEY_WRAP,
+                                                 b"\x01" * 16))
+        return not oc.startswith("internal:")
+    if op == "get-wrap-server":
+        class _Ctx(object):
+            tier, seed, violations = "quick", 0, []
+
+            def report(self, signature, what, replay_obj, no_input=False):
+                self.violations.append(signature)
+                return True
+
+            def run_model(self, driver, lines):
+                return []
+        ck = Checker(_Ctx(), random.Random(0))
+        run_wrap_server(ck, "quick")
+        return not ck.ctx.violations
     return None
 
 
